@@ -70,13 +70,13 @@ class SynLitInt:
 class SynTokens:
     """proc_macro2::TokenStream of a Meta::List: flat tokens + (if it parses) the nested metas"""
     type_name = "TokenStream"
-    __slots__ = ("flat", "metas", "text")
+    __slots__ = ("flat", "metas", "text", "mapping")
 
-    def __init__(self, flat, metas, text):
-        self.flat, self.metas, self.text = flat, metas, text
+    def __init__(self, flat, metas, text, mapping=None):
+        self.flat, self.metas, self.text, self.mapping = flat, metas, text, mapping
 
     def clone(self, I):
-        return SynTokens(self.flat, None if self.metas is None else [clone_val(I, m) for m in self.metas], self.text)
+        return SynTokens(self.flat, None if self.metas is None else [clone_val(I, m) for m in self.metas], self.text, self.mapping)
 
     def display(self, I):
         return list(self.text.chars) if isinstance(self.text, RString) else [ord(c) for c in self.text]
@@ -362,7 +362,7 @@ def metalist_parse(I, ml, parser):
     toks = ml.fields[L.syn_structs["MetaList"].index("tokens")]
     if is_parse_terminated(parser):
         return nested_metas(I, toks)
-    buf = ParseBuf(unbox(toks).flat)
+    buf = ParseBuf(unbox(toks).flat, unbox(toks).mapping)
     r = I.callf(parser, [Ref([buf], 0)])
     if isinstance(r, EnumV) and r.variant == 0 and buf.pos < len(buf.toks):
         return ERR(Opaque("syn::Error", "unexpected token"))
@@ -372,8 +372,12 @@ def metalist_parse(I, ml, parser):
 class ParseBuf:
     type_name = "ParseBuffer"
 
-    def __init__(self, toks):
-        self.toks, self.pos = toks, 0
+    def __init__(self, toks, mapping=None):
+        self.toks, self.pos, self.mapping = toks, 0, mapping or {}
+
+    def text(self, t):
+        """the text of an identifier / string token; a planted placeholder becomes its symbolic characters"""
+        return RString(list(self.mapping[t])) if t in self.mapping else S(t)
 
     def peek_punct(self, c):
         return self.pos < len(self.toks) and self.toks[self.pos]["k"] == "punct" and self.toks[self.pos]["c"] == c
@@ -396,7 +400,7 @@ def pb_call(I, a, n):
         if b.pos < len(b.toks) and b.toks[b.pos]["k"] == "ident":
             t = b.toks[b.pos]
             b.pos += 1
-            return OK(SynIdent(t["s"]))
+            return OK(SynIdent(b.text(t["s"])))
         return ERR(Opaque("syn::Error", "expected ident"))
     raise Unsupported("ParseBuffer::call with %r" % (f,))
 
@@ -426,9 +430,91 @@ def pb_parse(I, a, n):
             lit = b.toks[b.pos].get("lit")
             if lit and lit.get("v") == "Str":
                 b.pos += 1
-                return OK(SynLitStr(lit["a"][0]["s"]))
+                return OK(SynLitStr(b.text(lit["a"][0]["s"])))
         return ERR(Opaque("syn::Error", "expected string literal"))
+    if ty == "syn::Expr":
+        return parse_expr_tokens(I, b)
     raise Unsupported("ParseBuffer::parse::<%s>" % ty)
+
+
+def parse_expr_tokens(I, b):
+    """syn::Expr from the token cursor: a literal is rebuilt exactly; anything else is consumed up to the next
+    top-level comma and returned as Expr::Verbatim (typeshare only ever looks at Expr::Lit)"""
+    L = I.prog.layout
+    if b.pos >= len(b.toks):
+        return ERR(Opaque("syn::Error", "unexpected end of input, expected an expression"))
+    t = b.toks[b.pos]
+    nxt = b.toks[b.pos + 1] if b.pos + 1 < len(b.toks) else None
+    if t["k"] == "lit" and (nxt is None or (nxt["k"] == "punct" and nxt["c"] == ",")):
+        b.pos += 1
+        lit = from_json(t["lit"], L)
+        inner = unbox(lit.fields[0]) if lit.fields else None
+        if isinstance(inner, SynLitStr):
+            key = "".join(chr(c) for c in inner.s.chars) if all(isinstance(c, int) for c in inner.s.chars) else None
+            if key in b.mapping:
+                inner.s = RString(list(b.mapping[key]))
+        el = Agg("syn::ExprLit", [(RVec([]) if nm == "attrs" else lit) for nm in L.syn_structs["ExprLit"]])
+        return OK(EnumV("syn::Expr", L.syn_enums["Expr"].index("Lit"), [el]))
+    while b.pos < len(b.toks) and not b.peek_punct(","):
+        b.pos += 1
+    return OK(EnumV("syn::Expr", L.syn_enums["Expr"].index("Verbatim"), [Opaque("TokenStream", "<expr>")]))
+
+
+@model(r"^syn::Attribute::parse_nested_meta$")
+def attr_parse_nested_meta(I, a, n):
+    """syn 2: `path [= value | (..)]` items separated by commas; the callback gets ParseNestedMeta { path, input } and must
+    consume what follows the path - tokens it leaves behind make the next step fail with `expected `,``"""
+    at = deref(a[0])
+    L = I.prog.layout
+    meta = deref(at.fields[L.syn_structs["Attribute"].index("meta")])
+    if L.syn_enums["Meta"][meta.variant] != "List":
+        return ERR(Opaque("syn::Error", "expected attribute arguments in parentheses"))
+    toks = unbox(meta.fields[0].fields[L.syn_structs["MetaList"].index("tokens")])
+    b = ParseBuf(toks.flat, toks.mapping)
+    logic = a[1]
+    while b.pos < len(b.toks):
+        segs = []
+        lead = False
+        if b.peek_punct(":"):
+            lead = True
+            b.pos += 2
+        while True:
+            if b.pos < len(b.toks) and b.toks[b.pos]["k"] == "ident":
+                segs.append(b.toks[b.pos]["s"])
+                b.pos += 1
+            else:
+                return ERR(Opaque("syn::Error", "unsupported expression; enable syn's features=[\"full\"]" if b.pos < len(b.toks) and b.toks[b.pos]["k"] == "lit" else "expected nested attribute"))
+            if b.peek_punct(":") and b.pos + 1 < len(b.toks) and b.toks[b.pos + 1]["k"] == "punct" and b.toks[b.pos + 1]["c"] == ":":
+                b.pos += 2
+                continue
+            break
+        pj = {"t": "Path", "f": {"leading_colon": lead, "segments": [{"t": "PathSegment", "f": {"ident": {"t": "Ident", "s": sg}, "arguments": {"t": "PathArguments", "v": "None", "a": []}}} for sg in segs]}}
+        path = from_json(pj, L)
+        for sg in deref(path.fields[L.syn_structs["Path"].index("segments")]).items:
+            idn = sg.fields[0]
+            key = "".join(chr(c) for c in idn.s.chars)
+            if key in b.mapping:
+                idn.s = RString(list(b.mapping[key]))
+        pm = Agg("syn::meta::ParseNestedMeta", [path, Ref([b], 0)])
+        r = I.callf(logic, [pm])
+        if isinstance(r, EnumV) and r.variant != 0:
+            return r
+        if b.pos >= len(b.toks):
+            break
+        if not b.peek_punct(","):
+            return ERR(Opaque("syn::Error", "expected `,`"))
+        b.pos += 1
+    return OK(UNIT)
+
+
+@model(r"^syn::meta::ParseNestedMeta::<'_>::value$|^syn::meta::ParseNestedMeta::value$")
+def pnm_value(I, a, n):
+    pm = deref(a[0])
+    b = deref(pm.fields[1])
+    if not b.peek_punct("="):
+        return ERR(Opaque("syn::Error", "expected `=`"))
+    b.pos += 1
+    return OK(pm.fields[1])
 
 
 @model(r"^<syn::token::\w+ as std::default::Default>::default$")
